@@ -440,6 +440,16 @@ func (vr *variableResolver) resolve(ctx *ExecutionContext) (*Value, error) {
 		}
 
 		// Check if the part is a function call
+		if part.isFunctionCall {
+			// (what is called may stand behind pointers, like everything else a step
+			// works on; a nil one is a nil value)
+			for current.Kind() == reflect.Ptr || current.Kind() == reflect.Interface {
+				current = current.Elem()
+				if !current.IsValid() {
+					return AsValue(nil), nil
+				}
+			}
+		}
 		if part.isFunctionCall || current.Kind() == reflect.Func {
 			// Check for callable
 			if current.Kind() != reflect.Func {
